@@ -41,10 +41,11 @@ class Scratch:
 def gen_line(rnd, kind=None):
     kind = kind or rnd.choice(["th-good", "th-good", "th-1field", "th-0field", "th-odd", "th-tab", "text", "text-quotes", "sh", "empty", "th-lower", "th-nospace", "th-many"])
     f = lambda: rnd.choice(["", " ", "1 Feb 2020", "6.1", "7.4.2", "x y", "@@", "User Commands", "Python QR tool", "a'b", "  "])
+    g = lambda: rnd.choice([" ", " ", "  ", "\t", "", " 1 ", " x y ", "\\ "])      # what stands between two quoted fields
     if kind == "th-good":
-        return f'.TH QR 1 "{f()}" "{f()}" "{f()}"'
+        return f'.TH {rnd.choice(["QR 1 ", "", chr(34) + "QR" + chr(34) + " 1 ", "QR  "])}"{f()}"{g()}"{f()}"{g()}"{f()}"{rnd.choice(["", " ", " tail"])}'
     if kind == "th-many":
-        return f'.TH QR 1 "{f()}" "{f()}" "{f()}" "{f()}" trailing "{f()}"'
+        return f'.TH QR 1 "{f()}"{g()}"{f()}"{g()}"{f()}" "{f()}" trailing "{f()}"'
     if kind == "th-1field":
         return f'.TH QR 1 "{f()}" no more'
     if kind == "th-0field":
